@@ -33,30 +33,33 @@ def items(pr):
 def grouping(pr):
     out = []
     q = G + "__generate_asset"
-    f = A.func_node(pr.tree, q)
+    F = A.Fn(pr.tree, q)
+    f = F.node
     if f is None:
         return [A.bvc(q, "group", "function_present", False, REL, open_=True)]
+    out.append(A.bvc(q, "group", "every_transaction_of_the_three_sets_goes_once_into_the_bucket_of_its_year",
+                     F.has("for entry in chain(in_transaction_set, out_transaction_set, intra_transaction_set):\n    years_2_transaction_sets.setdefault(entry.timestamp.year, []).append(entry)") and
+                     F.has("in_transaction_set = computed_data.in_transaction_set\nout_transaction_set = computed_data.out_transaction_set\nintra_transaction_set = computed_data.intra_transaction_set") and
+                     F.has("years_2_transaction_sets = {}"), REL))
     loops = A.loops_of(f)
-    s = ast.unparse(f)
-    first = next((lp for lp in loops if "chain(" in ast.unparse(lp.iter)), None)
-    ok = first is not None and A.norm_expr(first.iter, A.function_env(f)) == "chain(computed_data.in_transaction_set, computed_data.out_transaction_set, computed_data.intra_transaction_set)" and \
-        len(first.body) == 1 and ast.unparse(first.body[0]) == "years_2_transaction_sets.setdefault(entry.timestamp.year, []).append(entry)"
-    out.append(A.bvc(q, "group", "every_transaction_of_the_three_sets_goes_once_into_the_bucket_of_its_year", ok, REL, ast.unparse(first)[:300] if first is not None else "loop not found"))
-    second = next((lp for lp in loops if "years_2_transaction_sets" in ast.unparse(lp.iter) and lp is not first), None)
+    second = next((lp for lp in loops if any(isinstance(c, ast.Call) and isinstance(c.func, ast.Attribute) and c.func.attr == "__generate_asset_year" for c in ast.walk(lp))), None)
     it = ast.unparse(second.iter) if second is not None else ""
-    out.append(A.bvc(q, "group", "years_are_visited_in_increasing_order", it == "sorted(years_2_transaction_sets.items())", REL,
+    out.append(A.bvc(q, "group", "years_are_visited_in_increasing_order", second is not None and A.expr_eq("sorted(years_2_transaction_sets.items())", it, F.scope), REL,
                      f"iterates {it}: dict order is first-seen order across the IN, OUT, INTRA tables, not year order"))
-    body = ast.unparse(second) if second is not None else ""
-    call = "previous_year_row_offset = self.__generate_asset_year(asset=asset, year=year, transaction_list=sorted(transaction_set, key=lambda x: x.timestamp), output_file=output_file, previous_year=previous_year, previous_year_row_offset=previous_year_row_offset)"
-    out.append(A.bvc(q, "group", "each_year_gets_its_bucket_time_sorted_and_the_previous_years_closing_row", call in body, REL))
+    call = ("previous_year_row_offset = self.__generate_asset_year(asset=asset, year=year, transaction_list=sorted(transaction_set, key=lambda x: x.timestamp), output_file=output_file, "
+            "previous_year=previous_year, previous_year_row_offset=previous_year_row_offset)")
+    out.append(A.bvc(q, "group", "each_year_gets_its_bucket_time_sorted_and_the_previous_years_closing_row", second is not None and A.has(second, call, F.mod, scope=F.scope) and
+                     isinstance(second.target, ast.Tuple) and [ast.unparse(x) for x in second.target.elts] == [F.scope.env.get("year", "year"), F.scope.env.get("transaction_set", "transaction_set")], REL))
     w = A.Writer(f, second, row_expr="row_index") if second is not None else None
     out.append(A.bvc(q, "group", "no_year_is_skipped", w is not None and not w.skips, REL))
-    i, j = body.find("self.__generate_asset_year("), body.find("previous_year = year")
-    out.append(A.bvc(q, "group", "previous_year_is_the_year_visited_last", 0 <= i < j and body.count("previous_year = ") == 1 and "previous_year: int = 0" in s and "previous_year_row_offset: int = 0" in s, REL))
-    g = A.func_node(pr.tree, G + "generate")
+    py = F.scope.env.get("previous_year", "previous_year")
+    n_store = len([n for n in ast.walk(f) if isinstance(n, ast.Name) and isinstance(n.ctx, ast.Store) and n.id == py])
+    out.append(A.bvc(q, "group", "previous_year_is_the_year_visited_last",
+                     second is not None and A.has(second, "previous_year_row_offset = self.__generate_asset_year(ANY)\n...\nprevious_year = year", F.mod, scope=F.scope) and n_store == 2 and
+                     F.has("previous_year = 0") and F.has("previous_year_row_offset = 0"), REL))
     _, wl = A.writer_for(pr.tree, G + "generate", "asset_to_computed_data.items()")
     out.append(A.bvc(G + "generate", "group", "every_asset_is_generated", wl is not None and not [x for x in wl.skips if x[0] != "raise"] and
-                     "self.__generate_asset(computed_data, output_file)" in ast.unparse(wl.loop), REL))
+                     A.has(wl.loop, "self.__generate_asset(computed_data, output_file)", A._MOD_OF.get(id(wl.fnode)), scope=wl.scope), REL))
     return out
 
 
@@ -70,71 +73,81 @@ def sheet(pr):
     f, w = A.writer_for(pr.tree, q, "transaction_list")
     if w is None:
         return [A.bvc(q, "writer", "loop_present", False, REL, open_=True)]
-    s = ast.unparse(f)
+    F = A.Fn(pr.tree, q)
+    sc = F.scope
     out.append(A.bvc(q, "writer", "sheet_is_a_copy_of_the_template_named_asset_year",
-                     "asset_year_sheet: Any = output_file.sheets[self.ASSET_TEMPLATE_SHEET].copy(newname=self.get_tax_sheet_name(asset, year))\n    output_file.sheets += asset_year_sheet" in s and
-                     "row_index: int = 21" in s, REL))
-    n = A.func_node(pr.tree, G + "get_tax_sheet_name")
-    out.append(A.bvc(G + "get_tax_sheet_name", "post", "name_is_asset_underscore_year", n is not None and "return _('{}_{}').format(asset, year)" in ast.unparse(n), REL))
+                     F.has("asset_year_sheet = output_file.sheets[self.ASSET_TEMPLATE_SHEET].copy(newname=self.get_tax_sheet_name(asset, year))\noutput_file.sheets += asset_year_sheet") and
+                     F.has(f"{w.row_src} = 21"), REL))
+    N = A.Fn(pr.tree, G + "get_tax_sheet_name")
+    out.append(A.bvc(N.qual, "post", "name_is_asset_underscore_year", N.has("return _('{}_{}').format(asset, year)"), REL))
     # rows: the writer rule with the one documented skip (a transfer without fee has neither a purchase nor a sale to list)
     skips = [x for x in w.skips if x[0] != "raise"]
-    ok_skip = len(skips) == 1 and skips[0][0] == "continue" and skips[0][1] == (("transaction_row.purchase_crypto_amount is None and transaction_row.sales_crypto_amount is None", True),)
+    ok_skip = len(skips) == 1 and skips[0][0] == "continue" and len(skips[0][1]) == 1 and skips[0][1][0][1] is True and \
+        A.expr_eq("transaction_row.purchase_crypto_amount is None and transaction_row.sales_crypto_amount is None", skips[0][1][0][0], sc)
     out.append(A.bvc(q, "writer", "W2_only_rows_with_nothing_to_list_are_skipped", ok_skip, REL, str(skips)))
     out.append(A.bvc(q, "writer", "W3_row_advances_once_by_one_after_the_last_write", len(w.advances) == 1 and w.advances[0][0] == "Add:1" and w.advances[0][1] == () and
                      w.advances[0][2] > max(c[3] for c in w.cells), REL, str(w.advances)))
-    cells = {(c[0], c[2]): c[1] for c in w.cells if c[4] == "row_index"}
+    rows_ = [c for c in w.cells if c[4] == w.row_norm]
+
+    def cell(col, guard):
+        for c in rows_:
+            if c[0] == col and A._guards_eq(guard, c[2], sc):
+                return c[1]
+        return None
     for col, val in sorted(ROW.items()):
-        out.append(A.bvc(q, "writer", f"W4_column_{col}_is_{A._lab(val)}", cells.get((col, ())) == val, REL, str(cells.get((col, ())))))
+        got = cell(col, ())
+        out.append(A.bvc(q, "writer", f"W4_column_{col}_is_{A._lab(val)}", got is not None and A.expr_eq(val, got, sc), REL, str(got)))
     pur, sal = (("transaction_row.purchase_crypto_amount is not None", True),), (("transaction_row.sales_crypto_amount is not None", True),)
-    out.append(A.bvc(q, "writer", "W4_purchase_columns_4_5", cells.get((4, pur)) == "transaction_row.purchase_crypto_amount" and cells.get((5, pur)) == "transaction_row.purchase_amount_in_yen", REL))
-    out.append(A.bvc(q, "writer", "W4_sale_columns_6_7", cells.get((6, sal)) == "transaction_row.sales_crypto_amount" and
-                     cells.get((7, sal)) == "transaction_row.sales_amount_in_yen if formatted_donation_amount is None else formatted_donation_amount", REL))
-    body = ast.unparse(w.loop)
-    disp = ["if isinstance(entry, InTransaction):\n        transaction_row = self.__process_in_transaction(entry)", "elif isinstance(entry, OutTransaction):\n        transaction_row = self.__process_out_transaction(entry)",
-            "elif isinstance(entry, IntraTransaction):\n        transaction_row = self.__process_intra_transaction(entry)"]
-    out.append(A.bvc(q, "writer", "row_record_is_built_from_the_loop_element_by_its_kind", all(d in body for d in disp), REL))
+    eq = lambda want, got: got is not None and A.expr_eq(want, got, sc)
+    out.append(A.bvc(q, "writer", "W4_purchase_columns_4_5", eq("transaction_row.purchase_crypto_amount", cell(4, pur)) and eq("transaction_row.purchase_amount_in_yen", cell(5, pur)), REL))
+    out.append(A.bvc(q, "writer", "W4_sale_columns_6_7", eq("transaction_row.sales_crypto_amount", cell(6, sal)) and
+                     eq("transaction_row.sales_amount_in_yen if formatted_donation_amount is None else formatted_donation_amount", cell(7, sal)), REL))
+    disp = ("if isinstance(entry, InTransaction):\n    transaction_row = self.__process_in_transaction(entry)\n    ...\n"
+            "elif isinstance(entry, OutTransaction):\n    transaction_row = self.__process_out_transaction(entry)\n    ...\n"
+            "elif isinstance(entry, IntraTransaction):\n    transaction_row = self.__process_intra_transaction(entry)\nelse:\n    raise RP2RuntimeError(ANY)")
+    out.append(A.bvc(q, "writer", "row_record_is_built_from_the_loop_element_by_its_kind", A.has(w.loop, disp, F.mod, scope=F.scope), REL))
     for name, fields in (("__process_in_transaction", ["transaction_month=transaction.timestamp.month", "transaction_day=transaction.timestamp.day", "transaction_client=transaction.exchange",
                                                        "transaction_type=transaction.transaction_type.value.upper()", "purchase_crypto_amount=transaction.crypto_in", "purchase_amount_in_yen=purchase_amount_in_yen"]),
                          ("__process_out_transaction", ["transaction_month=transaction.timestamp.month", "transaction_day=transaction.timestamp.day", "transaction_client=transaction.exchange",
                                                         "transaction_type=transaction.transaction_type.value.upper()", "sales_crypto_amount=transaction.crypto_out_with_fee", "sales_amount_in_yen=sales_amount_in_yen"]),
                          ("__process_intra_transaction", ["transaction_month=transaction.timestamp.month", "transaction_day=transaction.timestamp.day",
                                                           "sales_crypto_amount=transaction_fee_in_crypto if transaction_fee_in_crypto > ZERO else None"])):
-        pf = A.func_node(pr.tree, G + name)
-        ps = ast.unparse(pf) if pf else ""
-        out.append(A.bvc(G + name, "post", "row_record_fields_come_from_that_transaction", all(x in ps for x in fields), REL, str([x for x in fields if x not in ps])))
+        P = A.Fn(pr.tree, G + name)
+        out.append(A.bvc(P.qual, "post", "row_record_fields_come_from_that_transaction", P.expr(*fields), REL, str([x for x in fields if not P.expr(x)])))
+    PI = A.Fn(pr.tree, G + "__process_in_transaction")
+    out.append(A.bvc(PI.qual, "post", "purchase_amount_in_yen_is_amount_times_spot_price", PI.has("purchase_amount_in_yen = transaction.crypto_in * transaction.spot_price"), REL))
     # chaining
-    chain_ok = ("if previous_year_row_offset != 0:\n        previous_year_sheet_name: str = self.get_tax_sheet_name(asset, previous_year)\n"
-                "        previous_year_crypto_cell = f\"='{previous_year_sheet_name}'.I{previous_year_row_offset}\"\n"
-                "        previous_year_yen_cell = f\"='{previous_year_sheet_name}'.I{previous_year_row_offset + 1}\"") in s
+    chain_ok = F.has("if previous_year_row_offset != 0:\n    previous_year_sheet_name = self.get_tax_sheet_name(asset, previous_year)\n"
+                     "    previous_year_crypto_cell = f\"='{previous_year_sheet_name}'.I{previous_year_row_offset}\"\n"
+                     "    previous_year_yen_cell = f\"='{previous_year_sheet_name}'.I{previous_year_row_offset + 1}\"")
     out.append(A.bvc(q, "chain", "opening_balance_refers_to_the_previous_visited_years_sheet_and_returned_row", chain_ok, REL,
                      "the predecessor must be the year passed in (most recent earlier year with a sheet), not year - 1"))
     out.append(A.bvc(q, "chain", "opening_balance_is_zero_without_a_predecessor",
-                     "self._fill_cell(asset_year_sheet, row_index + 8, 4, previous_year_crypto_cell if previous_year_crypto_cell else 0, apply_style=False)" in s and
-                     "self._fill_cell(asset_year_sheet, row_index + 9, 4, previous_year_yen_cell if previous_year_yen_cell else 0, apply_style=False)" in s and
-                     "previous_year_crypto_cell: Optional[str] = None" in s, REL))
+                     F.has("self._fill_cell(asset_year_sheet, row_index + 8, 4, previous_year_crypto_cell if previous_year_crypto_cell else 0, apply_style=False)") and
+                     F.has("self._fill_cell(asset_year_sheet, row_index + 9, 4, previous_year_yen_cell if previous_year_yen_cell else 0, apply_style=False)") and
+                     F.has("previous_year_crypto_cell = None\nprevious_year_yen_cell = None"), REL))
     out.append(A.bvc(q, "chain", "closing_balance_cells_are_column_I_rows_plus_8_and_9",
-                     "self._fill_cell(asset_year_sheet, row_index + 8, 8, f'=E{row_index + 9}+F{row_index + 9}-H{row_index + 9}', apply_style=False)" in s and
-                     "self._fill_cell(asset_year_sheet, row_index + 9, 8, f'=I{row_index + 9}*G{row_index + 10}', apply_style=False)" in s, REL))
-    rets = [ast.unparse(n.value) for n in ast.walk(f) if isinstance(n, ast.Return)]
-    out.append(A.bvc(q, "chain", "returns_the_one_based_row_of_its_closing_quantity_cell", rets == ["row_index + 9"], REL, str(rets)))
+                     F.has("self._fill_cell(asset_year_sheet, row_index + 8, 8, f'=E{row_index + 9}+F{row_index + 9}-H{row_index + 9}', apply_style=False)") and
+                     F.has("self._fill_cell(asset_year_sheet, row_index + 9, 8, f'=I{row_index + 9}*G{row_index + 10}', apply_style=False)"), REL))
+    rets = [n.value for n in ast.walk(f) if isinstance(n, ast.Return)]
+    out.append(A.bvc(q, "chain", "returns_the_one_based_row_of_its_closing_quantity_cell", len(rets) == 1 and A.expr_eq("row_index + 9", ast.unparse(rets[0]), sc), REL, str([ast.unparse(r) for r in rets])))
     return out
 
 
 def summary(pr):
     out = []
     q = G + "__generate_asset_year"
-    f = A.func_node(pr.tree, q)
-    s = ast.unparse(f) if f else ""
+    F = A.Fn(pr.tree, q)
     out.append(A.bvc(q, "summary", "one_summary_sheet_per_year_created_on_first_use",
-                     "if self.__year_row_offset.setdefault(year, 7) == 7:\n        year_summary_sheet = output_file.sheets[self.SUMMARY_TEMPLATE_SHEET].copy(newname=self.get_summary_sheet_name(year))" in s and
-                     "else:\n        year_summary_sheet = output_file.sheets[self.get_summary_sheet_name(year)]" in s, REL))
+                     F.has("if self.__year_row_offset.setdefault(year, 7) == 7:\n    year_summary_sheet = output_file.sheets[self.SUMMARY_TEMPLATE_SHEET].copy(newname=self.get_summary_sheet_name(year))\n    ...\n"
+                           "else:\n    year_summary_sheet = output_file.sheets[self.get_summary_sheet_name(year)]"), REL))
     out.append(A.bvc(q, "summary", "one_inserted_line_per_asset_and_the_offset_advances",
-                     "self.__insert_summary_row(year_summary_sheet, self.__year_row_offset[year])" in s and "self.__year_row_offset[year] += 1" in s and
-                     "self._fill_cell(year_summary_sheet, self.__year_row_offset[year], 0, asset, apply_style=False)" in s, REL))
+                     F.order("self.__insert_summary_row(year_summary_sheet, self.__year_row_offset[year])", "self._fill_cell(year_summary_sheet, self.__year_row_offset[year], 0, asset, apply_style=False)",
+                             "self.__year_row_offset[year] += 1"), REL))
     refs = [f"f\"='{{self.get_tax_sheet_name(asset, year)}}'.{c}{{row_index + {k}}}\"" for c, k in (("G", 10), ("I", 9), ("I", 10), ("I", 18))]
-    out.append(A.bvc(q, "summary", "summary_line_points_at_that_asset_years_result_cells", all(r in s for r in refs), REL, str([r for r in refs if r not in s])))
-    init = A.func_node(pr.tree, G + "__init__")
-    out.append(A.bvc(G + "__init__", "summary", "offsets_start_empty_per_generator_instance", init is not None and "self.__year_row_offset: Dict[int, int] = {}" in ast.unparse(init), REL))
+    out.append(A.bvc(q, "summary", "summary_line_points_at_that_asset_years_result_cells", F.expr(*refs), REL, str([r for r in refs if not F.expr(r)])))
+    I = A.Fn(pr.tree, G + "__init__")
+    out.append(A.bvc(I.qual, "summary", "offsets_start_empty_per_generator_instance", I.has("self.__year_row_offset = {}") and I.has("self.__number_of_summaries = 0"), REL))
     return out
 
 
